@@ -37,6 +37,10 @@ type C06Case struct {
 	OrderBy  string `json:"order_by,omitempty"`
 	HasLimit bool   `json:"has_limit,omitempty"`
 	Limit    int    `json:"limit,omitempty"`
+	// Offset > 0: the trailing LIMIT carries an OFFSET (spelling OffsetComma: LIMIT m, n); also drawn for
+	// SELECT DISTINCT without ORDER BY, where the window is cut out of the first-occurrence sequence
+	Offset      int  `json:"offset,omitempty"`
+	OffsetComma bool `json:"offset_comma,omitempty"`
 	SQL      string `json:"sql"`
 	// distinct-agg mode
 	AggCol string `json:"agg_col,omitempty"`
@@ -57,8 +61,8 @@ func init() {
 		Title: "DISTINCT removes exactly the duplicates; UNION [ALL] concatenates [and dedups]",
 		Rule: "rapid draws tables with heavy duplication (value pools of 2-3 per column), select lists of columns and simple expressions, and " +
 			"either SELECT DISTINCT (oracle: reference first-occurrence sequence; also SELECT DISTINCT * over heterogeneous rows whose key sets differ at equal width, and SELECT DISTINCT over a grouped aggregate-only select list) or a union chain of 2-4 branches (a fifth of the later branches rename their output columns) " +
-			"with any mix of UNION / UNION ALL (a fifth of the branches parenthesised with a LIMIT / OFFSET of their own; two fifths of the chains made of aggregate branches, whole or grouped, with the same textual aggregates) and an optional trailing LIMIT (oracle: left-associative reference; pure UNION ALL chains compared " +
-			"as sequence, others as multiset with the reference's multiplicities; LIMIT: length min(n,|combined|), exact prefix for pure UNION ALL " +
+			"with any mix of UNION / UNION ALL (a fifth of the branches parenthesised with a LIMIT / OFFSET of their own; two fifths of the chains made of aggregate branches, whole or grouped, with the same textual aggregates) and an optional trailing LIMIT, half of them with an OFFSET in either spelling; SELECT DISTINCT without ORDER BY also under LIMIT / OFFSET (exact window of the first-occurrence sequence) (oracle: left-associative reference; pure UNION ALL chains compared " +
+			"as sequence, others as multiset with the reference's multiplicities; LIMIT n OFFSET m: length of the window [m, m+n) of the combined result, exact window for pure UNION ALL " +
 			"chains, else a sub-multiset of the combined result that is duplicate-free when the last operator is UNION). Non-trivial: >=1 duplicate " +
 			"output row / overlapping branches.",
 		Assumptions: []string{
@@ -212,6 +216,9 @@ func genC06(t *rapid.T) any {
 			c.OrderBy = names[0] + rapid.SampledFrom([]string{"", " DESC", " ASC"}).Draw(t, "orderdir")
 			c.SQL += " ORDER BY " + c.OrderBy
 		}
+		if c.OrderBy == "" && rapid.IntRange(0, 3).Draw(t, "dlimit") == 0 {
+			c.genWindow(t)
+		}
 		return c
 	}
 	nb := rapid.IntRange(2, 4).Draw(t, "nbranches")
@@ -273,11 +280,33 @@ func genC06(t *rapid.T) any {
 	}
 	c.SQL = strings.Join(parts, " ")
 	if rapid.IntRange(0, 2).Draw(t, "haslimit") == 0 {
-		c.HasLimit = true
-		c.Limit = rapid.IntRange(0, 8).Draw(t, "limit")
-		c.SQL += fmt.Sprintf(" LIMIT %d", c.Limit)
+		c.genWindow(t)
 	}
 	return c
+}
+
+// genWindow appends LIMIT n, in half of the cases with an OFFSET m (either spelling), to the statement.
+func (c *C06Case) genWindow(t *rapid.T) {
+	c.HasLimit = true
+	c.Limit = rapid.IntRange(0, 8).Draw(t, "limit")
+	if rapid.Bool().Draw(t, "hasoffset") {
+		c.Offset = rapid.IntRange(1, 5).Draw(t, "offset")
+		c.OffsetComma = rapid.Bool().Draw(t, "offsetcomma")
+	}
+	switch {
+	case c.Offset > 0 && c.OffsetComma:
+		c.SQL += fmt.Sprintf(" LIMIT %d, %d", c.Offset, c.Limit)
+	case c.Offset > 0:
+		c.SQL += fmt.Sprintf(" LIMIT %d OFFSET %d", c.Limit, c.Offset)
+	default:
+		c.SQL += fmt.Sprintf(" LIMIT %d", c.Limit)
+	}
+}
+
+// window is the part of seq that LIMIT / OFFSET of the case select.
+func (c *C06Case) window(seq []any) []any {
+	lo := minInt(c.Offset, len(seq))
+	return seq[lo:minInt(len(seq), lo+c.Limit)]
 }
 
 // branchItems returns the select list of one union branch (columns renamed when the branch has a suffix).
@@ -367,6 +396,11 @@ func checkC06(c *C06Case) Result {
 		}
 		want := dedupRows(all)
 		res.NonTrivial = len(want) < len(all)
+		if c.HasLimit {
+			// the window is cut out of the sequence of distinct rows (first occurrences, source order)
+			res.Labels = append(res.Labels, fmt.Sprintf("distinct-window:offset=%v", c.Offset > 0))
+			want = c.window(want)
+		}
 		out := c.exec()
 		res.Execs++
 		if !out.OK() {
@@ -446,15 +480,15 @@ func checkC06(c *C06Case) Result {
 		}
 		return res
 	}
-	res.Labels = append(res.Labels, "limit")
-	wantLen := minInt(c.Limit, len(combined))
+	res.Labels = append(res.Labels, "limit", fmt.Sprintf("limit-offset:%v", c.Offset > 0))
+	wantLen := len(c.window(combined))
 	if len(out.Rows) != wantLen {
-		res.Violation = fmt.Sprintf("%s\n  combined result has %d rows, LIMIT %d must return %d, got %d: %s", c.SQL, len(combined), c.Limit, wantLen, len(out.Rows), val.JSON(out.Rows))
+		res.Violation = fmt.Sprintf("%s\n  combined result has %d rows, LIMIT %d OFFSET %d must return %d, got %d: %s", c.SQL, len(combined), c.Limit, c.Offset, wantLen, len(out.Rows), val.JSON(out.Rows))
 		return res
 	}
 	if pureAll {
-		if d := diffRows(out.Rows, combined[:wantLen]); d != "" {
-			res.Violation = fmt.Sprintf("%s\n  %s\n  expected prefix %s\n  got             %s", c.SQL, d, val.JSON(combined[:wantLen]), val.JSON(out.Rows))
+		if d := diffRows(out.Rows, c.window(combined)); d != "" {
+			res.Violation = fmt.Sprintf("%s\n  %s\n  expected window %s\n  got             %s", c.SQL, d, val.JSON(c.window(combined)), val.JSON(out.Rows))
 		}
 		return res
 	}
